@@ -49,6 +49,7 @@ class RuleResult:
         self.obligations: List[Obligation] = []
         self.notes: List[str] = []
         self.control_ok: Optional[bool] = None  # positive control for zero-expected rules
+        self.blind: Optional[str] = None  # set by guard(): the rule raised AnalysisError
 
     def ok(self, key, site="", construct="", detail="", **facts):
         self.obligations.append(Obligation(self.rule, f"{self.rule}@{key}", True, site, construct, detail, facts))
@@ -66,6 +67,19 @@ class RuleResult:
     @property
     def failed(self) -> List[Obligation]:
         return [o for o in self.obligations if not o.ok]
+
+
+def guard(thunk) -> RuleResult:
+    """Runs one rule.  A rule that cannot analyse the tree (AnalysisError) does not stop the other rules of the property: it comes back as a
+    blind result.  `finish` reports the check as analysis-broken (exit 2) unless another rule has a definite violation to report."""
+    from .model import AnalysisError
+
+    try:
+        return thunk()
+    except AnalysisError as e:
+        r = RuleResult("(blind)", str(e), floor=0)
+        r.blind = str(e)
+        return r
 
 
 def load_known() -> Dict[str, Any]:
@@ -113,6 +127,9 @@ def finish(
     per_rule = []
     blind: List[str] = []
     for r in results:
+        if r.blind is not None:
+            blind.append(r.blind)
+            continue
         if len(r.obligations) < r.floor and not r.failed:
             blind.append(
                 f"rule {r.rule} matched {len(r.obligations)} instance(s), floor is {r.floor}: "
